@@ -146,6 +146,14 @@ func Exp10(d Decimal) Decimal {
 		return inf(false)
 	}
 
+	// The integer part of d becomes the exponent of the result. Results down
+	// to 1e-6176 are representable, so a negative argument may have a larger
+	// integer part than a positive one.
+	limit := uint(maxUnbiasedExponent + 58)
+	if d.Signbit() {
+		limit = exponentBias + 58
+	}
+
 	var dSigInt uint
 	if l10+int(dExp) >= 0 {
 		sig := dSig
@@ -168,7 +176,7 @@ func Exp10(d Decimal) Decimal {
 			exp--
 		}
 
-		if dSigInt > maxUnbiasedExponent+58 {
+		if dSigInt > limit {
 			if d.Signbit() {
 				return zero(false)
 			}
@@ -193,19 +201,7 @@ func Exp10(d Decimal) Decimal {
 	var res decomposed192
 	var trunc int8
 
-	var sigInt uint128
-	var expInt int16
-
-	if dSigInt != 0 {
-		sigInt = uint128{1, 0}
-
-		for dSigInt > maxUnbiasedExponent {
-			sigInt = sigInt.mul64(10)
-			dSigInt--
-		}
-
-		expInt = int16(dSigInt)
-	}
+	expInt := int16(dSigInt)
 
 	if dSig[0]|dSig[1] != 0 {
 		res, trunc = decomposed192{
@@ -215,7 +211,7 @@ func Exp10(d Decimal) Decimal {
 
 		res, trunc = res.epow(int16(res.sig.log10()), trunc)
 
-		if res.exp > maxUnbiasedExponent+58 {
+		if res.exp > int16(limit) {
 			if d.Signbit() {
 				return zero(false)
 			}
@@ -233,7 +229,7 @@ func Exp10(d Decimal) Decimal {
 		}
 	}
 
-	if res.exp > maxUnbiasedExponent+58 {
+	if res.exp > int16(limit) {
 		if d.Signbit() {
 			return zero(false)
 		}
